@@ -3,6 +3,7 @@ package drv
 import (
 	"context"
 	"fmt"
+	"reflect"
 	"regexp"
 	"runtime"
 	"strings"
@@ -43,7 +44,7 @@ func (r *Run) pipelineHook(fm *eval.Frame, point string) {
 	if point == "pipeline.start" {
 		ev = "PStart"
 	}
-	bg := fm != nil && fm.Context() != r.ctx
+	bg := isBackground(fm, r.ctx)
 	r.mu.Lock()
 	g := r.tag()
 	r.mu.Unlock()
@@ -60,6 +61,19 @@ func (r *Run) pipelineHook(fm *eval.Frame, point string) {
 		r.sink(e)
 	}
 	r.mu.Unlock()
+}
+
+// isBackground: the frame belongs to a background job (`cmd &`). The evaluator's own flag is read (an
+// unexported bool, read-only through reflection) so that a frame whose context was detached by mistake
+// is NOT excused; if the field is gone the context is compared instead.
+func isBackground(fm *eval.Frame, intr context.Context) bool {
+	if fm == nil {
+		return false
+	}
+	if f := reflect.ValueOf(fm).Elem().FieldByName("background"); f.IsValid() && f.Kind() == reflect.Bool {
+		return f.Bool()
+	}
+	return fm.Context() != intr
 }
 
 // ---- harness commands available to C19 programs
